@@ -36,6 +36,10 @@ def run_one(args):
         else:
             if out.returncode == 0:
                 return (name, "PASS", "silent")
+            if out.returncode == 1 and fired and all(('.H/reference-agreement' in l or '.S/slice-agreement' in l) for l in fired):
+                # an edit the templates accept as behaviour-preserving but that changes the summary of a referenced function
+                # (a redundant recomputation, an equivalence that holds for integers only): reported, by design - see DESIGN.md 10.3
+                return (name, "REFERENCE-ONLY", fired[0].strip()[:160])
             return (name, "FAIL", f"exit={out.returncode} {fired[:2]} {[l for l in out.stdout.splitlines() if 'ANALYSIS' in l][:1]}")
     finally:
         shutil.rmtree(tmp, ignore_errors=True)
@@ -49,7 +53,7 @@ def main():
     bad = 0
     for name, status, info in res:
         print(f"{status:14s} {name}: {info}")
-        bad += status != "PASS"
+        bad += status not in ("PASS", "REFERENCE-ONLY")
     print(f"{pid}: {len(res) - bad}/{len(res)} corpus entries behave as expected")
     sys.exit(2 if bad else 0)
 
